@@ -19,12 +19,13 @@
   |fl(x) - x| ≤ u·|x| for normal results, with the absolute bound u·(smallest normal) in the
   subnormal range (`tiny`), so underflow IS covered.
 
-  NON-VACUITY: two instances are constructed below,
-    * `FloatSpec.exact`  : rnd = id, eps = 0 (exact arithmetic);
-    * `FloatSpec.ieee p emin` : genuine round-to-nearest (ties away from zero... see the definition)
-      onto the grid of p-digit binary floating-point numbers with minimal exponent `emin`
-      (gradual underflow, unbounded above); `FloatSpec.binary32`, `FloatSpec.binary64` are its
-      instances with (24, -149) and (53, -1074).
+  NON-VACUITY: two instances are constructed,
+    * `FloatSpec.exact` (below): rnd = id, eps = 0 (exact arithmetic);
+    * `FloatSpec.nearest p emin` (Basic/FloatNearest.lean): genuine round-to-nearest (ties away from zero)
+      onto the grid of p-digit binary floating-point numbers with smallest quantum 2^emin (gradual
+      underflow, unbounded above); `FloatSpec.binary32 = nearest 24 (-149)` and
+      `FloatSpec.binary64 = nearest 53 (-1074)` satisfy `IsBinary32` / `IsBinary64` and are evaluated
+      by the kernel on concrete inputs in the Props files.
 
   This file imports Mathlib modules: it must NOT be imported by any Model/ or Driver/ file
   (only by Props/ and Lemmas/).
